@@ -117,6 +117,31 @@ def generate(rng, tier):
             toks = ["method=0", f"speed={sp},{rng.randint(0, sp)}"]
             info = {"expert": False, "req": {}, "track": False, "skip": None}
             cases.append(case(g, toks, info, ("gen:symbol-table-boundary",)))
+    # ---- (a3) int32 attributes whose value range sits exactly on / next to the limit of the wrap transform
+    #      (max - min = 2^31 - 2, 2^31 - 1, 2^31): the encoder must drop the prediction exactly when the decoder's
+    #      InitCorrectionBounds would refuse the range
+    for lo, hi in [(0, 2 ** 31 - 1), (-2 ** 30, 2 ** 30 - 1), (-2 ** 31, -1), (1, 2 ** 31 - 1), (-2 ** 31, 0), (-2 ** 30, 2 ** 30 - 2), (-2 ** 30 - 1, 2 ** 30 - 1)]:
+        for kind in (["pc", "mesh"] if thorough else [rng.choice(["pc", "mesh"])]):
+            nc = rng.choice([1, 2, 3])
+            n = rng.choice([4, 9, 30])
+            rows = [[rng.choice([lo, hi, rng.randint(lo, hi)]) for _ in range(nc)] for _ in range(n)]
+            rows[rng.randrange(n)][rng.randrange(nc)] = lo
+            rows[rng.randrange(n)][rng.randrange(nc)] = hi
+            if not any(v == lo for r in rows for v in r):
+                rows[0][0] = lo
+            if not any(v == hi for r in rows for v in r):
+                rows[-1][-1] = hi
+            vals = b"".join(_st.pack("<" + "i" * nc, *r) for r in rows)
+            att = G.Attr(G.GENERIC, G.DT["i32"], nc, False, 1, n, None, vals)
+            if kind == "pc":
+                g = G.Geom(False, n, [], [att])
+            else:
+                pos = G.Attr(G.POSITION, G.DT["f32"], 3, False, 0, n, None, b"".join(_st.pack("<3f", float(i), float(i * i % 7), 0.0) for i in range(n)))
+                g = G.Geom(True, n, [(i, (i + 1) % n, (i + 2) % n) for i in range(n - 2)], [pos, att])
+            g.family = "wrap_range_limit"
+            toks = [f"method={rng.choice([0, 0, 1]) if kind == 'mesh' else 0}", f"speed={rng.randint(0, 10)},{rng.randint(0, 10)}"]
+            info = {"expert": False, "req": {}, "track": False, "skip": None}
+            cases.append(case(g, toks, info, ("gen:wrap-range-limit", f"range:{hi - lo - (2 ** 31 - 1):+d}")))
     reps = 4 if thorough else 1
     for _ in range(reps):
         # ---- (b1) every method class x every encoder speed (decoder speed random)
